@@ -113,7 +113,7 @@ pub fn check(sc: &Scenario, ex: &Exec, a: &Analysis) -> Vec<Violation> {
 /// The scenario family: the scenario name without its configuration component, so that a known
 /// finding names the specific history (requests, payload plan, arrival pattern) that fails.
 fn family(sc: &Scenario) -> String {
-    sc.name.replace("/os/", "/").replace("/linger/", "/").replace("/nohalf/", "/").replace(' ', "")
+    sc.name.replace("/os/", "/").replace("/linger/", "/").replace("/nohalf/", "/").replace("/kaoff/", "/kaoff:").replace(' ', "")
 }
 
 /// Had the head of request `n` already been taken from the socket when the closing response was
@@ -175,6 +175,7 @@ pub fn scenarios(_tier: &str) -> Vec<Scenario> {
         ("os", Config::default(), 0),
         ("linger", Config { disconnect_timeout_ms: 1000, ..Config::default() }, 2500),
         ("nohalf", Config { half_closed: false, ..Config::default() }, 0),
+        ("kaoff", Config { keep_alive: Ka::Disabled, ..Config::default() }, 0),
     ];
     let budgets = vec![("read", 30), ("write", 24), ("flush", 12), ("env", 40), ("envq", 10), ("shutdown", 3)];
     let finish = |mut s: Scenario, cfg: &Config, horizon: u64| {
@@ -218,13 +219,18 @@ pub fn scenarios(_tier: &str) -> Vec<Scenario> {
     // B: body-bearing request followed by a pipelined GET
     for (bn, mkbody) in &bodies {
         for plan in &plans {
-            for (cn, cfg, horizon) in &configs[..2] {
+            for (cn, cfg, horizon) in configs.iter().filter(|c| c.0 != "nohalf") {
+              for (rbn, rb) in [("", resp_body()), ("-emptyresp", BodySpec::Empty)] {
+                if rbn == "-emptyresp" && matches!(plan, PayloadPlan::RespondThenReadAllInBody | PayloadPlan::ReadFirstThenRespondHold | PayloadPlan::HoldUnreadUntilBodyDone) {
+                    // these plans keep the payload inside the response body object
+                    continue;
+                }
                 for arrival in ["all", "second-later", "body-split"] {
                     let r0 = mkbody(RequestSpec::new("POST", 0));
                     let r1 = RequestSpec::new("GET", 1);
-                    let p0 = HandlerProgram::ok(resp_body()).plan(plan.clone());
+                    let p0 = HandlerProgram::ok(rb.clone()).plan(plan.clone());
                     let p1 = HandlerProgram::ok(BodySpec::Bytes(b"second".to_vec()));
-                    let mut s = Scenario::new(&format!("B:{bn}/{plan:?}/{cn}/{arrival}"), vec![r0, r1], vec![p0, p1]);
+                    let mut s = Scenario::new(&format!("B:{bn}/{plan:?}{rbn}/{cn}/{arrival}"), vec![r0, r1], vec![p0, p1]);
                     let st = s.stream();
                     let (_, he, end) = st.spans[0];
                     s = match arrival {
@@ -234,7 +240,26 @@ pub fn scenarios(_tier: &str) -> Vec<Scenario> {
                     };
                     out.push(finish(s, cfg, *horizon));
                 }
+              }
             }
+        }
+    }
+    // G: the closing request is not the first one: a pending handler, then a request that asks
+    // for close, then one more request
+    for pend in [0u8, 1] {
+        for later in [false, true] {
+            let reqs = vec![RequestSpec::new("GET", 0), RequestSpec::new("GET", 1).conn("close"), RequestSpec::new("GET", 2)];
+            let progs = vec![
+                HandlerProgram::ok(BodySpec::Bytes(b"one".to_vec())).pend(pend),
+                HandlerProgram::ok(BodySpec::Bytes(b"two".to_vec())),
+                HandlerProgram::ok(BodySpec::Bytes(b"three".to_vec())),
+            ];
+            let mut s = Scenario::new(&format!("G:get+close+get/p{pend}/later={later}"), reqs, progs);
+            if later {
+                let end1 = s.stream().spans[1].2;
+                s = with_segments(s, &[(end1, When::Quiescent)]);
+            }
+            out.push(finish(s, &Config::default(), 0));
         }
     }
     // C: responses that announce close for reasons other than the body, followed by a pipelined request
